@@ -612,7 +612,9 @@ impl StorageEngine {
         #[cfg(feature = "verif-hooks")]
         vh::before_lock("se.delete.dropping", &|| self.dropping_kgs.is_locked_exclusive());
         let dropping_guard = self.dropping_kgs.read();
-        if dropping_guard.contains(kg) {
+        // Refuse before anything is persisted when the graph does not exist: a shard written
+        // for it would bring the graph to life at the next startup.
+        if dropping_guard.contains(kg) || !self.knowledge_graphs.contains_key(kg) {
             return Err(StorageError::KnowledgeGraphNotFound(kg.to_string()));
         }
 
